@@ -13,6 +13,9 @@ func zzAddUser(up *UserProperties, ps []zzProp) {
 	}
 }
 
+// zzDecoyWill makes zzBuild attach another will message first (ZZ_C01_rewill).
+var zzDecoyWill bool
+
 func zzBuildWill(a *zzAbs) *Publish {
 	w := NewPublish()
 	w.SetTopicName(string(a.willTopic))
@@ -75,6 +78,16 @@ func zzBuild(a *zzAbs) ControlPacket {
 			w := zzBuildWill(a)
 			if zzPHas(a.willProps, 0x18) {
 				p.SetWillDelayInterval(uint32(zzPU(a.willProps, 0x18)))
+			}
+			if zzDecoyWill {
+				// an earlier will message with its own QoS and retain flag
+				// is replaced: nothing of it may survive
+				d := NewPublish()
+				d.SetQoS(zzU8("dq") & 3)
+				d.SetRetain(zzBool("dr"))
+				d.SetTopicName("decoy")
+				d.SetPayload([]byte("dp"))
+				p.SetWill(d)
 			}
 			p.SetWill(w)
 		}
